@@ -240,6 +240,63 @@ theorem c17_outcome_inplace (doc : Doc) (files : Files) (n : Nat) (hb : doc.Belo
         | none => simp [hg] at this
         | some e => exact h2 ⟨e.shape, (s3 a e hg).2.2⟩
 
+/-- **Where the `KeyError` is raised, and in what state** (bug-for-bug; the property only demands the exception).
+    If the cells before cell `c` resolve and `c` has the first reference without a definition — its morphology
+    reference, or its biophysics reference when its morphology is fine — then the exception carries exactly that
+    id, and with `overwrite=True` the document passed in is left half-converted: the cells before `c` are all
+    resolved, the cells after `c` are untouched. -/
+theorem c17_keyerror_at_first_dangling (doc : Doc) (files : Files) (n : Nat) (hb : doc.Below n)
+    (hr : ∀ inc ∈ doc.includes, (files inc.href).isSome) (pre post : List Cell) (c : Cell)
+    (hcells : doc.cells = pre ++ c :: post)
+    (hpre : ∀ x ∈ pre, (∀ a ∈ x.m.refs, ∃ sh, DefinesM doc files a sh) ∧ (∀ a ∈ x.b.refs, ∃ sh, DefinesB doc files a sh))
+    (a : String)
+    (hc : (a ∈ c.m.refs ∧ ¬ ∃ sh, DefinesM doc files a sh) ∨
+      ((∀ a' ∈ c.m.refs, ∃ sh, DefinesM doc files a' sh) ∧ a ∈ c.b.refs ∧ ¬ ∃ sh, DefinesB doc files a sh)) :
+    (fixExternal doc true files n).ret = .error (.keyError a) ∧
+    ∃ pre' c', (fixExternal doc true files n).input.cells = pre' ++ c' :: post ∧ pre'.length = pre.length ∧
+      (∀ x ∈ pre', x.m.refs = [] ∧ x.b.refs = []) := by
+  rw [fixExternal_true]
+  cases ht : lookupTables doc files n with
+  | error e =>
+    obtain ⟨r, hr'⟩ := loadIncludes_ok files (referencedIds doc.cells) doc.includes [] [] n hr
+    rw [lookupTables_eq_error ht] at hr'; cases hr'
+  | ok r =>
+    obtain ⟨em, eb, n2⟩ := r
+    have ⟨_, s2, s3, c1, c2⟩ := lookupTables_spec ht hb
+    rw [fixInPlace_of_ok ht, hcells]
+    have hmem : ∀ x, x ∈ pre ∨ x = c → x ∈ doc.cells := by
+      intro x hx; rw [hcells]; simp only [mem_append, mem_cons]
+      rcases hx with hx | hx
+      · exact Or.inl hx
+      · exact Or.inr (Or.inl hx)
+    have hpre_ok : (fixCells em eb pre n2).err = none := by
+      rw [fixCells_ok_iff]
+      intro x hx
+      exact ⟨fun a' ha' => c1 a' (mem_referencedIds (hmem x (Or.inl hx)) (Or.inl ha')) ((hpre x hx).1 a' ha'),
+        fun a' ha' => c2 a' (mem_referencedIds (hmem x (Or.inl hx)) (Or.inr ha')) ((hpre x hx).2 a' ha')⟩
+    have noneM : ∀ a', (¬ ∃ sh, DefinesM doc files a' sh) → em.get? a' = none := by
+      intro a' hn
+      cases hg : em.get? a' with
+      | none => rfl
+      | some e => exact absurd ⟨e.shape, (s2 a' e hg).2.2⟩ hn
+    have noneB : ∀ a', (¬ ∃ sh, DefinesB doc files a' sh) → eb.get? a' = none := by
+      intro a' hn
+      cases hg : eb.get? a' with
+      | none => rfl
+      | some e => exact absurd ⟨e.shape, (s3 a' e hg).2.2⟩ hn
+    have hcerr : (fixCell em eb c (fixCells em eb pre n2).next).err = some (.keyError a) := by
+      rcases hc with ⟨h1, h2⟩ | ⟨h0, h1, h2⟩
+      · have := fixSlot_missing em c.oid c.m (fixCells em eb pre n2).next a h1 (noneM a h2)
+        rw [fixCell_of_err this]
+      · have hm : (fixSlot em c.oid c.m (fixCells em eb pre n2).next).err = none := by
+          rw [fixSlot_ok_iff]
+          exact fun a' ha' => c1 a' (mem_referencedIds (hmem c (Or.inr rfl)) (Or.inl ha')) (h0 a' ha')
+        rw [fixCell_of_ok hm]
+        exact fixSlot_missing eb c.oid c.b _ a h1 (noneB a h2)
+    rw [fixCells_append_ok em eb pre (c :: post) n2 hpre_ok, fixCells_of_err hcerr]
+    refine ⟨by simp [retOf], (fixCells em eb pre n2).val, (fixCell em eb c (fixCells em eb pre n2).next).val, rfl,
+      fixCells_length em eb pre n2, fixCells_refs_nil em eb pre n2 hpre_ok⟩
+
 /-- **`overwrite=False`: the returned document equals the one `overwrite=True` produces** — the same exception, or
     documents that are equal up to object identities (`Doc.shape`; this is the bindings' `__eq__`). -/
 theorem c17_no_overwrite_equiv (doc : Doc) (files : Files) (n : Nat) :
@@ -402,15 +459,7 @@ theorem c17_every_cell_partial (doc : Doc) (files : Files) (n : Nat) (doc' : Doc
       simp only [mem_append] at hc
       rcases hc with hc | hc
       · subst h
-        simp only at hc
-        have hlen := fixCells_length em eb doc.cells n2
-        obtain ⟨k, hk, rfl⟩ := List.getElem_of_mem hc
-        have hp : (doc.cells[k]'(by omega), (fixCells em eb doc.cells n2).val[k]) ∈
-            doc.cells.zip (fixCells em eb doc.cells n2).val := by
-          rw [List.mem_iff_getElem]
-          exact ⟨k, by simp [hlen]; omega, by simp⟩
-        have ⟨_, _, _, p4, p5⟩ := fixCells_post em eb doc.cells n2 he _ hp
-        exact ⟨p4.refs_nil, p5.refs_nil⟩
+        exact fixCells_refs_nil em eb doc.cells n2 he c hc
       · rw [hrest.2.2.2.2.2.1] at hc; exact h2 c hc
 
 def witnessMorph : Elem := ⟨"m", .mk 1 none "Morphology m" []⟩
@@ -466,6 +515,11 @@ example : DanglingId exDangling exFiles "nope" := by
   · simp [exDangling, exDoc] at hinc; subst hinc
     simp [exFiles] at hf; subst hf
     simp at he; subst he; simp at hid
+example : exDangling.cells = [⟨5, none, "c0", ⟨some "m1", none⟩, ⟨none, none⟩⟩] ++
+    ⟨6, none, "c1", ⟨some "nope", none⟩, ⟨none, none⟩⟩ :: [⟨7, none, "c2", ⟨some "m1", none⟩, ⟨none, none⟩⟩] := rfl
+example : ∃ sh, DefinesM exDangling exFiles "m1" sh :=
+  ⟨_, Or.inl ⟨⟨"m1", .mk 2 none "Morphology m1" [.mk 3 none "segments" [.mk 4 none "Segment 0" []]]⟩,
+    by simp [exDangling, exDoc], rfl, rfl⟩⟩
 example : (fixExternal exDangling true exFiles 9).ret = .error (.keyError "nope") := rfl
 example : (fixExternal exDangling true exFiles 9).input.cells.map (fun c => (c.m.attr, c.m.elem.isSome)) =
     [(none, true), (some "nope", false), (some "m1", false)] := by decide
